@@ -73,6 +73,7 @@ class Reply(SerializableMixin, DictableMixin):
     def __init__(self, code=None, text=None):
         self.code = code
         self.text = text
+        self._multiline_code = None
 
     def parse(self, data):
         for line in data.splitlines(False):
@@ -81,9 +82,15 @@ class Reply(SerializableMixin, DictableMixin):
             if not match:
                 raise ProtocolError('Failed to parse reply.')
 
-            if match.group(1) and match.group(2) == b' ':
+            if match.group(1) and match.group(2) == b' ' \
+                    and self._multiline_code in (None, match.group(1)):
+                # A multi-line reply ends with a line beginning with the
+                # same code as its first line (RFC 959 section 4.2).
                 assert self.code is None
                 self.code = int(match.group(1))
+            elif match.group(1) and match.group(2) == b'-' \
+                    and self.text is None:
+                self._multiline_code = match.group(1)
 
             if self.text is None:
                 self.text = match.group(3).decode('utf-8',
